@@ -664,8 +664,7 @@ func TestC16(t *testing.T) {
 		}
 	}
 
-	rep.CoqFiles = append(rep.CoqFiles, rf.finish(t, dir))
-	rep.CaseFiles = append(rep.CaseFiles, writeJSONL(t, dir, "C16_restart_cases.jsonl", jl))
+	rf.finishSharded(t, dir, rep, jl, 400)
 	rep.Assumptions = append(rep.Assumptions, "recover() semantics and goroutine scheduling of the Go runtime; leak freedom is observed (synctest bubble must drain), not proved")
 	rep.write(t, dir)
 }
